@@ -157,18 +157,29 @@ def _run(case, ctx, exact=True):
     else:
         tol = TOL["rotation_energy_rtol"]["level%d" % mspec["grid_level"]]
     sig = (kind, fam)
-    if exact:
-        ctx.close([e2], [e1], sig + ("energy",), rtol=tol, scale=abs(e1), motion=case["motion"])
-    else:
-        # "to within quadrature error": judged on the finest grid used here (level 3), where the rotation-induced change
-        # of these synthetic functionals was calibrated on the pinned tree (80 cases: median 1e-6, worst 7.6e-4 of
-        # max(|E_xc|, 0.05 Eh per electron)); a broken rotational covariance does not shrink with the grid
+    if not exact:
+        # "to within quadrature error": judged on grid level 3, where the rotation-induced change of these synthetic
+        # functionals was measured on the pinned tree (80 cases: median 1e-6, worst 7.6e-4 of max(|E_xc|, 0.05 Eh per
+        # electron)).  That figure is a sample, not a bound (thorough tier, seed 1: 3.1e-3 for C-He with two spline
+        # evaluators), so a deviation above it is re-judged by the one thing that separates quadrature error from a
+        # broken covariance: the latter does not shrink with the grid.  Both molecules are evaluated again on level 6
+        # and the deviation must have fallen to a third (or below the level-3 figure).
         escale = max(abs(e1), 0.05 * float(np.sum(n1)))
-        ctx.measure("rotation_energy/" + fam, abs(e2 - e1) / (tol * escale))
-        ctx.check(abs(e2 - e1) <= tol * escale, sig + ("energy",), err=abs(e2 - e1), bound=tol * escale, e=e1,
-                  motion=case["motion"])
-    ctx.close(np.atleast_1d(n2), np.atleast_1d(n1), sig + ("nelec",), rtol=1e-10 if exact else tol)
-    if exact:
+        d3 = abs(e2 - e1)
+        ctx.measure("rotation_energy/" + fam, d3 / (tol * escale))
+        if d3 > tol * escale:
+            ctx.event("rotation_rejudged_on_finer_grid")
+            fine = dict(case, mol=dict(mspec, grid_level=6))
+            e1f = _evaluate(mol, fine, dms, uks)[1]
+            e2f = _evaluate(mol2, fine, dms2, uks)[1]
+            df = abs(e2f - e1f)
+            ctx.check(df <= max(tol * escale, d3 / 3.0), sig + ("energy",), err=d3, err_level6=df, bound=tol * escale, e=e1,
+                      motion=case["motion"])
+        ctx.close(np.atleast_1d(n2), np.atleast_1d(n1), sig + ("nelec",), rtol=tol)
+
+    def judge_exact(tol):
+        ctx.close([e2], [e1], sig + ("energy",), rtol=tol, scale=abs(e1), motion=case["motion"])
+        ctx.close(np.atleast_1d(n2), np.atleast_1d(n1), sig + ("nelec",), rtol=1e-10)
         for s in range(len(v1)):
             want = M @ v1[s] @ M.T
             ctx.close(v2[s], want, sig + ("vmat",), rtol=tol, scale=float(np.max(np.abs(want))))
@@ -190,6 +201,32 @@ def _run(case, ctx, exact=True):
                 ctx.close(b, a, sig + ("feature", "row%d" % min(k, 3)), rtol=max(tol, 1e-8) * 10,
                           scale=float(np.max(np.abs(a))) + 1e-300, feature=k)
             ctx.event("features_compared")
+    if exact:
+        from cpverif.runner import Violation
+
+        try:
+            judge_exact(tol)
+        except Violation:
+            if not case["model"]["nldf"]:
+                raise
+            # The NLDF pipeline amplifies rounding (inverse overlap of the exponent ladder and of the auxiliary basis:
+            # 1e-11 typically; 2e-8 ... 2.5e-7 of vmat measured for He-Ne with an `expnt` version-i model, the same for a
+            # translation by 1e-9 and by 2 bohr), and a motion changes every coordinate in the last bits.  The
+            # amplification of *this* case is measured with two null motions -- translations by 1e-6 bohr, under which a
+            # covariance defect proportional to the displacement is a millionth of what the real motion shows -- and the
+            # case is judged again at 30 times that noise, never looser than 1e-4.
+            noise = 0.0
+            for t0 in (1e-6 * np.array([0.7310585786, -0.2689414213, 0.5]), 1e-6 * np.array([-0.3, 0.9, 0.41])):
+                mol0 = G.build_mol(mspec, atoms=[[a_, list(np.array(p_) + t0)] for a_, p_ in mspec["atoms"]])
+                n0, e0, v0, f0, g0 = _evaluate(mol0, case, dms, uks)
+                noise = max(noise, abs(e0 - e1) / max(abs(e1), 1e-300))
+                for s_ in range(len(v1)):
+                    noise = max(noise, float(np.max(np.abs(v0[s_] - v1[s_]))) / (float(np.max(np.abs(v1[s_]))) + 1e-300))
+            ctx.event("exact_motion_rejudged_with_measured_rounding_noise")
+            ctx.measure("null_motion_noise/" + fam, noise / tol)
+            if 30.0 * noise <= tol:
+                raise
+            judge_exact(min(30.0 * noise, 1e-4))
     moved_differs = np.max(np.abs(np.array([p for _, p in moved]) - coords)) > 1e-6 or perm != list(range(natm))
     if moved_differs and abs(e1) > 1e-8:
         ctx.nontrivial([G.mol_class(mspec), G.model_signature(case["model"]), kind,
